@@ -56,7 +56,7 @@ def units():
     EF = h.ExternalModule(name="UF", port_list=[h.Inout(name="a"), h.Inout(name="units_0"), h.Inout(name="units_1"),
                                                 h.Inout(name="i_0")], desc="", domain="u")
     # a unit with a bundle-valued port next to its signal ports - as written, and already elaborated (bundle flattened)
-    def bmod(pre):
+    def bmod(pre, namesake=None):
         def mk():
             UB = h.Bundle(name="UnitB")
             UB.add(h.Signal(name="x"))
@@ -66,6 +66,13 @@ def units():
             m.bb = UB(port=True)
             m.e = h.ExternalModule(name="U4b", port_list=[h.Inout(name="p"), h.Inout(name="q"), h.Inout(name="r", width=2),
                                                         h.Inout(name="s")], desc="", domain="u")()(p=m.a, q=m.bb.x, r=m.bb.y, s=m.z)
+            if namesake == "port":
+                # a scalar port called like a flattened member of the bundle port: the member is exported as `bb_x_`
+                m.bb_x = h.Port()
+                m.e2 = h.R(r=1)(p=m.bb_x, n=m.a)
+            elif namesake == "signal":
+                m.bb_x = h.Signal()
+                m.e2 = h.R(r=1)(p=m.bb_x, n=m.a)
             if pre:
                 h.elaborate(m)
             return m
@@ -82,6 +89,8 @@ def units():
     ED = h.ExternalModule(name="UDir", port_list=[h.Input(name="i1"), h.Input(name="i2"), h.Output(name="o1"), h.Output(name="o2")],
                           desc="", domain="u")
     return [("BMod", bmod(False), ["a", "z"]), ("BModE", bmod(True), ["a", "z"]),
+            ("BModNP", bmod(False, "port"), ["a", "z"]), ("BModNS", bmod(False, "signal"), ["a", "z"]),
+            ("BModNPE", bmod(True, "port"), ["a", "z"]),
             ("DirMod", dmod, ["i1", "i2", "o1", "o2", "io"]), ("DirExt", lambda: ED(), ["i1", "i2", "o1", "o2"]),
             ("EI", lambda: EI(), ["i", "o", "units"]), ("EF", lambda: EF(), ["a", "units_0", "units_1", "i_0"]),
             ("R", lambda: h.R(r=1), ["p", "n"]), ("Nmos", lambda: h.Nmos(), ["d", "g", "s", "b"]),
@@ -130,6 +139,18 @@ def check_series(case):
             def __init__(self, width):
                 self.width = width
         uports = {p_.signal: _P(tw[p_.signal]) for p_ in tm.ports}
+    # the generated module's name for each unit port: the same name - except that a flattened bundle member which had to
+    # step around a PRIVATE object of the unit (`bb_x_` next to an internal signal `bb_x`) has no reason to in the
+    # generated module, whose namespace holds the unit's ports and Series' own objects only
+    scalar = {k for k, v in defined.items() if isinstance(v, h.Signal)}
+    sigof = {}
+    for pn in uports:
+        name = pn
+        if pn not in scalar:
+            name = pn.rstrip("_")
+            while name in scalar or name in sigof.values():
+                name += "_"
+        sigof[pn] = name
     try:
         pkg = h.to_proto(m)
     except Exception as e:
@@ -143,7 +164,7 @@ def check_series(case):
     # through the unit's own ports (the unit's port nets appear in the partition through its leaves).
     top = [mm for mm in pkg.modules if mm.name.endswith(m.name) or mm.name == m.name][-1]
     exported_ports = [p_.signal for p_ in top.ports]
-    if sorted(exported_ports) != sorted(uports) or sorted(s_.name for s_ in top.signals if s_.name in uports) != sorted(uports):
+    if sorted(exported_ports) != sorted(sigof.values()) or sorted(s_.name for s_ in top.signals if s_.name in sigof.values()) != sorted(sigof.values()):
         return ("post.ports", f"{case!r}: the exported module has ports {exported_ports}, the unit has {list(uports)}", w)
     insts = list(top.instances)
     if len(insts) != n:
@@ -164,11 +185,11 @@ def check_series(case):
     if n == 1:
         i = insts[0]
         for pn in uports:
-            if conn_of(i, pn) != (pn, None):
+            if conn_of(i, pn) != (sigof[pn], None):
                 return ("post.wrapper", f"{case!r}: nser=1 port {pn} wired to {conn_of(i, pn)}", w)
         return None
     widths = {s.name: s.width for s in top.signals}
-    internal = [s for s in widths if s not in uports]
+    internal = [s for s in widths if s not in sigof.values()]
     if len(internal) != 1 or widths[internal[0]] != n - 1:
         return ("post.internal-net", f"{case!r}: internal signals {[(s, widths[s]) for s in internal]}, expected one of width {n - 1}", w)
     iname = internal[0]
@@ -184,9 +205,9 @@ def check_series(case):
         for pn in uports:
             if pn in (c0, c1):
                 continue
-            if conn_of(inst, pn) != (pn, None):
+            if conn_of(inst, pn) != (sigof[pn], None):
                 return ("post.parallel", f"{case!r}: unit {k} port {pn} wired to {conn_of(inst, pn)}, expected module "
-                                         f"port {pn}", w)
+                                         f"port {sigof[pn]}", w)
     return None
 
 
